@@ -754,7 +754,8 @@ export class NeverRuntype extends BaseRuntype {
     return "never";
   }
   schema(_ctx: SchemaContext): JSONSchema7 {
-    return annotateSchema(this.metadata, { anyOf: [] });
+    // the schema nothing validates against (`anyOf: []` is not a well-formed schema)
+    return annotateSchema(this.metadata, { not: {} });
   }
   validate(_ctx: ValidateContext, _input: unknown): boolean {
     return false;
